@@ -222,9 +222,7 @@ def run(prog: Program, ctx: Ctx) -> None:  # noqa: PLR0912,PLR0915
     ctx.ob("R5", key(fn, "retarget-loop"), bool(loops), f"a loop over <old member>.aliases assigns alias.target = {val}", where(fn))
     if loops:
         loop_node, assigns = loops[0]
-        member_var = dotted(loop_node.stmt.iter.func.value.value) if isinstance(loop_node.stmt.iter, ast.Call) and isinstance(loop_node.stmt.iter.func, ast.Attribute) and isinstance(loop_node.stmt.iter.func.value, ast.Attribute) else None  # type: ignore[union-attr]
-        if member_var is None and isinstance(loop_node.stmt.iter, ast.Attribute):  # type: ignore[union-attr]
-            member_var = dotted(loop_node.stmt.iter.value)  # type: ignore[union-attr]
+        member_var = next((dotted(n.value) for n in ast.walk(loop_node.stmt.iter) if isinstance(n, ast.Attribute) and n.attr == "aliases"), None)  # type: ignore[union-attr]
         # every path to the store on which the old member exists and is not an alias passes the loop head
         branch_starts = []
         for x in cfg.live_nodes():
@@ -307,3 +305,216 @@ def run(prog: Program, ctx: Ctx) -> None:  # noqa: PLR0912,PLR0915
                         rec = rec or (isinstance(outer, ast.Subscript) and "[parts[0]]" in unparse(outer.value).replace(" ", ""))
             ctx.ob("R6", key(f, "recurse-on-tail"), rec, f"{mname} recurses on parts[1:] through the same operation of members[parts[0]]", where(f))
     ctx.expect_min("R6", n_ops, 6)
+    _history_table(prog, ctx)
+
+
+def _history_table(prog: Program, ctx: Ctx) -> None:  # noqa: PLR0912,PLR0915
+    """R7: every operation sequence up to the bound over a small universe, evaluated on the mixins' and models' own code, against a dictionary model."""
+    import itertools
+
+    from sa.absint import Interp, Obj, Raised
+
+    ctx.rule("R7", "after every sequence of up to three insertions / replacements / deletions (by name, dotted path or tuple, on objects or on the "
+                   "collection): no operation raises except KeyError for a missing key, every member's parent is its container, dotted, tuple and chained "
+                   "lookups agree with a dictionary model, deleted members are gone, aliases registered on a replaced object follow the replacement, "
+                   "every resolved alias is listed by its target under its current path, and no alias targets itself")
+    M = "_griffe.models"
+    it = Interp(prog, max_depth=60, max_steps=3_000_000)
+    cc = prog.cls("_griffe.collections.ModulesCollection")
+    AE = {"AliasResolutionError", "CyclicAliasError"}
+
+    def new(cls: str, *a: object, **k: object) -> Obj:
+        return it._construct(prog.cls(f"{M}.{cls}"), list(a), dict(k))
+
+    def meth(o: Obj, name: str):
+        return prog.lookup_method(o.cls, name)[0]
+
+    def build() -> tuple[Obj, dict]:
+        coll = it._construct(cc, [], {})
+        m, n = new("Module", "m"), new("Module", "n")
+        it.call(meth(coll, "set_member"), coll, "m", m)
+        it.call(meth(coll, "set_member"), coll, "n", n)
+        k = new("Class", "K")
+        it.call(meth(m, "set_member"), m, "K", k)
+        it.call(meth(m, "set_member"), m, "x", new("Attribute", "x"))
+        it.call(meth(k, "set_member"), k, "f", new("Function", "f"))
+        it.call(meth(n, "set_member"), n, "y", new("Alias", "y", "m.x"))
+        it.call(meth(n, "set_member"), n, "w", new("Alias", "w", "m.K"))
+        return coll, {"m": {"K": {"f": {}}, "x": {}}, "n": {"y": {}, "w": {}}}
+
+    def container(coll: Obj, path: tuple[str, ...]) -> Obj:
+        cur = coll
+        for p in path:
+            cur = cur.attrs["members"][p]
+        return cur
+
+    # operations: (label, function applied to (coll, model)) ; each returns None or the name of an exception
+    def op_set(via: str, path: tuple[str, ...], factory: str):
+        def make() -> Obj:
+            name = path[-1]
+            if factory == "object":
+                return new("Attribute", name)
+            if factory == "alias":
+                return new("Alias", name, "m.K.f")
+            if factory == "dangling alias":
+                return new("Alias", name, "ext.missing")
+            return new("Alias", name, ".".join(path))  # would target its own path
+
+        def run(coll: Obj, model: dict) -> None:
+            value = make()
+            if via == "name":
+                cont = container(coll, path[:-1])
+                it.call(meth(cont, "set_member"), cont, path[-1], value)
+            elif via == "dotted":
+                it.call(meth(coll, "set_member"), coll, ".".join(path), value)
+            elif via == "tuple":
+                it.call(meth(coll, "set_member"), coll, tuple(path), value)
+            else:  # item assignment
+                cont = container(coll, path[:-1])
+                it.call(meth(cont, "__setitem__"), cont, path[-1], value)
+            d = model
+            for p in path[:-1]:
+                d = d[p]
+            d[path[-1]] = {}
+
+        return (f"set {'.'.join(path)} = {factory} via {via}", run)
+
+    def op_del(via: str, path: tuple[str, ...]):
+        def run(coll: Obj, model: dict) -> None:
+            if via == "name":
+                cont = container(coll, path[:-1])
+                it.call(meth(cont, "del_member"), cont, path[-1])
+            elif via == "dotted":
+                it.call(meth(coll, "del_member"), coll, ".".join(path))
+            else:
+                it.call(meth(coll, "__delitem__"), coll, tuple(path))
+            d = model
+            for p in path[:-1]:
+                d = d[p]
+            del d[path[-1]]
+
+        return (f"del {'.'.join(path)} via {via}", run)
+
+    def op_resolve(path: tuple[str, ...]):
+        def run(coll: Obj, _model: dict) -> None:
+            a = container(coll, path)
+            try:
+                it.getattr(a, "target")
+            except Raised as r:
+                if r.exc not in AE:
+                    raise
+
+        return (f"resolve {'.'.join(path)}", run)
+
+    ops = [
+        op_set("name", ("m", "x"), "object"), op_set("dotted", ("m", "x"), "object"), op_set("tuple", ("m", "K", "f"), "object"), op_set("item", ("m", "x"), "object"),
+        op_set("name", ("m", "x"), "alias"), op_set("name", ("m", "x"), "dangling alias"), op_set("name", ("m", "x"), "self alias"), op_set("dotted", ("m", "K"), "object"),
+        op_set("name", ("m", "z"), "object"), op_set("name", ("n", "y"), "alias"),
+        op_del("name", ("m", "x")), op_del("dotted", ("m", "K", "f")), op_del("tuple", ("n", "y")), op_del("dotted", ("m", "x")),
+        op_resolve(("n", "y")), op_resolve(("n", "w")),
+    ]
+
+    def walk(o: Obj, model: dict, path: tuple[str, ...], problems: list[str], coll: Obj) -> None:
+        members = o.attrs["members"]
+        if sorted(members) != sorted(model):
+            problems.append(f"{'.'.join(path) or '<collection>'} has members {sorted(members)}, the model has {sorted(model)}")
+            return
+        for name, child in members.items():
+            cpath = (*path, name)
+            if path and it.getattr(child, "parent") is not o:
+                problems.append(f"parent of {'.'.join(cpath)} is not its container")
+            if child.attrs.get("name") != name:
+                problems.append(f"{'.'.join(cpath)} is stored under a key different from its name")
+            for form, keyv in (("dotted", ".".join(cpath)), ("tuple", tuple(cpath))):
+                try:
+                    got = it.call(meth(coll, "get_member"), coll, keyv)
+                except Raised as r:
+                    got = f"raises {r.exc}"
+                if got is not child:
+                    problems.append(f"{form} lookup of {'.'.join(cpath)} gives {got}")
+            is_alias = child.cls is not None and child.cls.name == "Alias"
+            if is_alias:
+                tgt = child.attrs.get("_target")
+                if tgt is child:
+                    problems.append(f"alias {'.'.join(cpath)} targets itself")
+                if isinstance(tgt, Obj) and tgt.cls is not None and tgt.cls.name != "Alias":
+                    reg = tgt.attrs.get("aliases", {})
+                    if reg.get(".".join(cpath)) is not child:
+                        problems.append(f"resolved alias {'.'.join(cpath)} is not listed by its target {it.getattr(tgt, 'path')} (listed: {sorted(reg)})")
+            else:
+                walk(child, model[name], cpath, problems, coll)
+
+    n_hist = 0
+    reported: set[str] = set()
+    depth = 3 if ctx.tier == "thorough" else 2
+    singles = [(o,) for o in ops]
+    pairs = list(itertools.product(ops, repeat=2))
+    triples = list(itertools.product(ops, repeat=3)) if depth == 3 else []
+    for hist in [*singles, *pairs, *triples]:
+        coll, model = build()
+        # resolve the two aliases first in half of the universes (registered aliases follow replacements)
+        labels = []
+        problem = None
+        it.steps = 0
+        for label, fn in hist:
+            labels.append(label)
+            before_regs = {}
+            try:
+                tgt_path = label.split(" ")[1] if label.startswith("set ") else None
+                if tgt_path:
+                    try:
+                        old = container(coll, tuple(tgt_path.split(".")))
+                        before_regs = dict(old.attrs.get("aliases", {})) if old.cls is not None and old.cls.name != "Alias" else {}
+                    except KeyError:
+                        before_regs = {}
+                fn(coll, model)
+            except KeyError:
+                break  # the operation addresses something an earlier step removed: a model-level KeyError, nothing to check
+            except Raised as r:
+                legit = r.exc == "KeyError" and _missing(model, label)
+                if legit:
+                    break
+                problem = f"`{label}` raises {r.exc}"
+                break
+            problems: list[str] = []
+            walk(coll, model, (), problems, coll)
+            if tgt_path and "via item" not in label:
+                new_val = container(coll, tuple(tgt_path.split(".")))
+                for apath, a in before_regs.items():
+                    if a.attrs.get("_target") is not new_val and a is not new_val and not _self_cycle(apath, new_val, it):
+                        problems.append(f"alias {apath} still targets the replaced object after `{label}`")
+            if problems:
+                problem = problems[0]
+                break
+        n_hist += 1
+        ok = problem is None
+        k = f"history|{' ; '.join(labels)}"
+        if not ok:
+            cls_key = f"history-class|{labels[-1]}|{problem.split(' raises ')[-1] if ' raises ' in problem else problem[:60]}"
+            if cls_key in reported:
+                continue
+            reported.add(cls_key)
+            k = cls_key
+        ctx.ob("R7", k, ok, f"after {labels}: " + ("all invariants hold" if ok else problem), "src/_griffe/mixins.py")
+    ctx.expect_min("R7", n_hist, 250)
+    ctx.analysed["histories"] = n_hist
+
+
+def _missing(model: dict, label: str) -> bool:
+    """The operation addresses a path that the dictionary model does not contain (a KeyError is the documented outcome)."""
+    parts = label.split(" ")[1].split(".")
+    d = model
+    upto = parts if label.startswith("del ") or label.startswith("resolve ") else parts[:-1]
+    for p in upto:
+        if not isinstance(d, dict) or p not in d:
+            return True
+        d = d[p]
+    return False
+
+
+def _self_cycle(alias_path: str, new_val, it) -> bool:
+    """Retargeting is skipped (by design) when the new value sits at the alias's own path."""
+    try:
+        return it.getattr(new_val, "path") == alias_path
+    except Exception:  # noqa: BLE001
+        return False
